@@ -279,3 +279,16 @@ Theorem C15_graph_func_backtraces : forall isf tids s,
         time_of q (backtraces isf tids s) = ref_bt_time q (ref_calls tids (istream_as_stream s)) mod W64).
 Proof. exact backtraces_sums. Qed.
 Print Assumptions C15_graph_func_backtraces.
+
+(* Re-entry of FUNC (direct or mutual recursion, FUNC again after it returned, FUNC in several tasks): the FUNC line
+   counts exactly the entries of FUNC made while no FUNC was running in the same task, i.e. the entries whose name
+   path is pre ++ [FUNC] with FUNC not in pre; nested entries are nodes below the root (C15_graph_func_sums). *)
+Theorem C15_graph_func_root_outermost : forall func tids s, wf_stream s = true -> NoDup tids ->
+  n_calls (graphf_build func tids s) = N.of_nat (length (filter (outer_entry func) (ref_entries [] s))).
+Proof. exact graphf_root_outermost. Qed.
+Print Assumptions C15_graph_func_root_outermost.
+
+Theorem C15_outer_entry_spec : forall func p,
+  rel_path func p = Some [] <-> exists pre, p = pre ++ [func] /\ ~ In func pre.
+Proof. exact rel_path_nil_spec. Qed.
+Print Assumptions C15_outer_entry_spec.
